@@ -86,6 +86,27 @@ func genC09(t *rapid.T) C09Case {
 		c.WS.Files = append(c.WS.Files, WSFile{Path: "da/same.lua", Text: "return { a = 1 }\n"}, WSFile{Path: "db/same.lua", Text: "return { b = 2 }\n"},
 			WSFile{Path: "usesame.lua", Text: "local s = require(\"same\")\nprint(s.a, s.b)\n"})
 	}
+	// many symbols: more matches of one workspace/symbol query than the answer's limit (200), spread
+	// over several files, so that the cut depends on how the workers' partial results are merged
+	if rapid.IntRange(0, 3).Draw(t, "manySymbols") == 0 {
+		nf := rapid.IntRange(6, 14).Draw(t, "symFiles")
+		per := rapid.IntRange(18, 40).Draw(t, "symPerFile")
+		for i := 0; i < nf; i++ {
+			var b strings.Builder
+			for k := 0; k < per; k++ {
+				switch (i + k) % 3 {
+				case 0:
+					fmt.Fprintf(&b, "Sym%d_%d = %d\n", i, k, k)
+				case 1:
+					fmt.Fprintf(&b, "function Symf%d_%d() end\n", i, k)
+				default:
+					fmt.Fprintf(&b, "local symloc%d_%d = %d\nprint(symloc%d_%d)\n", i, k, k, i, k)
+				}
+			}
+			c.WS.Files = append(c.WS.Files, WSFile{Path: fmt.Sprintf("syms/s%02d.lua", i), Text: b.String()})
+		}
+		c.WS.Files = append(c.WS.Files, WSFile{Path: "syms/exact.lua", Text: "function Sym() end\nfunction sym() end\n"})
+	}
 	// filler files: more files than NumCPU+2, so the worker pools recycle their goroutines
 	nfill := rapid.SampledFrom([]int{0, 3, 20}).Draw(t, "nfill")
 	for i := 0; i < nfill; i++ {
@@ -317,7 +338,7 @@ func checkC09(c C09Case, env *Env) *Violation {
 	}
 	for fi, f := range c.WS.Files {
 		res, b := reflua.Analyze(f.Text)
-		if res.Verdict != reflua.Valid || b == nil || strings.HasPrefix(f.Path, "fill/") && fi%7 != 0 {
+		if res.Verdict != reflua.Valid || b == nil || strings.HasPrefix(f.Path, "fill/") && fi%7 != 0 || strings.HasPrefix(f.Path, "syms/") {
 			continue
 		}
 		n := 0
@@ -345,6 +366,8 @@ func checkC09(c C09Case, env *Env) *Violation {
 		}
 		qs = append(qs, q{"textDocument/documentSymbol", harness.J(harness.M{"textDocument": harness.M{"uri": harness.URI(f.Path)}}), f.Path})
 	}
+	qs = append(qs, q{"workspace/symbol", harness.J(harness.M{"query": "Sym"}), "query Sym"}, q{"workspace/symbol", harness.J(harness.M{"query": "sym"}), "query sym"},
+		q{"workspace/symbol", harness.J(harness.M{"query": ""}), "empty query"})
 	qs = append(qs, q{"workspace/symbol", harness.J(harness.M{"query": "G"}), "query G"}, q{"workspace/symbol", harness.J(harness.M{"query": "Dup"}), "query Dup"})
 
 	type outcome struct {
